@@ -302,7 +302,12 @@ fn explore(plan: &Plan, kf: &[KnownFinding], prop: &str) -> Stats {
             let order = rd.unk_order();
             let mut rd_k2 = rd.clone();
             rd_k2.astral_takes_nul = true;
-            for s in &sentences {
+            // C01 / C02: the statements hold on a reused worker as well (enumeration order, then
+            // reverse order); the fresh-worker tokens are the reference for that pass
+            let reuse = which != Which::C03;
+            let mut reused = t.new_worker();
+            let mut fresh_tokens: Vec<(usize, Vec<Tok>)> = vec![];
+            for (si, s) in sentences.iter().enumerate() {
                 st.states += 1;
                 if !s.is_empty() {
                     st.transitions += 1;
@@ -341,6 +346,27 @@ fn explore(plan: &Plan, kf: &[KnownFinding], prop: &str) -> Stats {
                     }
                     Ok(r) => r,
                 };
+                if reuse {
+                    let w = &mut reused;
+                    let r = guard(|| {
+                        w.reset_sentence(s);
+                        w.tokenize();
+                        read_tokens(w)
+                    });
+                    st.count("sentences_on_a_reused_worker");
+                    if r.as_ref().ok() != Some(&run.tokens) {
+                        st.violation(finding(
+                            "reused-worker-result-differs",
+                            format!("on a reused worker (after the preceding sentences of the enumeration) the tokens are {:?}, on a fresh worker {:?}", r.as_ref().map(|t| t.iter().map(|x| (x.surface.clone(), x.total)).collect::<Vec<_>>()), run.tokens.iter().map(|x| (x.surface.clone(), x.total)).collect::<Vec<_>>()),
+                            u,
+                            opts,
+                            s,
+                            json!({"note": "reused worker, enumeration order"}),
+                        ));
+                        reused = t.new_worker();
+                    }
+                    fresh_tokens.push((si, run.tokens.clone()));
+                }
                 st.outcome(&(&u.name, opts, &run.tokens));
                 st.add("tokens", run.tokens.len() as u64);
                 for tk in &run.tokens {
@@ -447,6 +473,35 @@ fn explore(plan: &Plan, kf: &[KnownFinding], prop: &str) -> Stats {
                                 st.count("sentences_with_lexicon_homographs");
                             }
                         }
+                    }
+                }
+            }
+            // reverse order (longer sentences first) on one worker
+            if reuse {
+                let mut reused = t.new_worker();
+                let mut reported = 0;
+                for (si, ft) in fresh_tokens.iter().rev() {
+                    let s = &sentences[*si];
+                    let w = &mut reused;
+                    let r = guard(|| {
+                        w.reset_sentence(s);
+                        w.tokenize();
+                        read_tokens(w)
+                    });
+                    st.count("sentences_on_a_reused_worker");
+                    if r.as_ref().ok() != Some(ft) {
+                        if reported < 3 {
+                            st.violation(finding(
+                                "reused-worker-result-differs",
+                                format!("on a reused worker (after longer sentences) the tokens are {:?}, on a fresh worker {:?}", r.as_ref().map(|t| t.iter().map(|x| (x.surface.clone(), x.total)).collect::<Vec<_>>()), ft.iter().map(|x| (x.surface.clone(), x.total)).collect::<Vec<_>>()),
+                                u,
+                                opts,
+                                s,
+                                json!({"note": "reused worker, reverse enumeration order"}),
+                            ));
+                        }
+                        reported += 1;
+                        reused = t.new_worker();
                     }
                 }
             }
@@ -570,7 +625,7 @@ pub fn run(which: Which, tier: Tier) -> i32 {
         }
     }
     rep.rule = format!(
-        "state = (dictionary of a finite family, option setting, sentence); successor = append one character of the universe's alphabet; every sentence of length <= {max_len} is tokenized by the real code on a fresh worker and compared with the reference; distinct = distinct (dictionary, options, token sequence) outcomes"
+        "state = (dictionary of a finite family, option setting, sentence); successor = append one character of the universe's alphabet; every sentence of length <= {max_len} is tokenized by the real code on a fresh worker and compared with the reference; for C01/C02 every sentence is also tokenized on one reused worker in enumeration order and on another in reverse order, where it must give the same tokens; distinct = distinct (dictionary, options, token sequence) outcomes"
     );
     rep.bounds = json!({"max_sentence_len": max_len, "universes": universes.len(), "option_settings_per_universe": universes.iter().map(|u| u.opts.len()).max()});
     rep.assumptions = vec![
@@ -610,6 +665,7 @@ pub fn run(which: Which, tier: Tier) -> i32 {
             "rule_fallback_single_char",
             "sentences_longer_than_32_chars",
             "sentences_with_more_than_256_nodes_at_a_boundary",
+            "sentences_on_a_reused_worker",
         ],
         Which::C02 => vec![
             "sentences_with_more_than_16_nodes_at_a_boundary",
@@ -618,6 +674,7 @@ pub fn run(which: Which, tier: Tier) -> i32 {
             "c02_sentences_with_exact_ties",
             "c02_sentences_where_eos_connection_changes_argmin",
             "c02_agrees_with_reference_candidates",
+            "sentences_on_a_reused_worker",
         ],
         Which::C03 => vec![
             "rule_invoke_suppressed",
